@@ -335,3 +335,81 @@ def compare_translations(want, observed):
             diffs.append({"input": list(w), "missing": sorted(map(list, ws - got), key=repr),
                           "spurious": sorted(map(list, got - ws), key=repr)})
     return diffs
+
+
+# ----------------------------------------------------------------------------------------
+# oracle validation (`vf selfcheck`, once "vlib.oracles.fst" is listed in vlib/selfcheck.py): the
+# transducers and the expected translations literally asserted in pyformlang/fst/tests/test_fst.py and
+# finite_automaton/tests/test_epsilon_nfa.py::test_to_fst, pushed through this reference semantics.
+
+def _expect(ref, word, outs, max_out=None):
+    got, _ = image(ref, word, max_out)
+    want = {tuple(o) for o in outs}
+    if got != want:
+        raise AssertionError("image(%r) = %r, the repository's test expects %r" % (word, got, want))
+
+
+def _fst0():
+    return Ref(starts=["q0"], finals=["q1"], trans=[("q0", "a", "q1", ("b",))])
+
+
+def _fst1():
+    return Ref(starts=["q1"], finals=["q2"], trans=[("q1", "b", "q2", ("c",))])
+
+
+def check_translate():
+    r = Ref(starts=["q0"])
+    _expect(r, ["a"], [])
+    r.add("q0", "a", "q1", ("b",))
+    _expect(r, ["a"], [])
+    r.finals.add("q1")
+    _expect(r, ["a"], [["b"]])
+    r.add("q1", None, "q1", ("c",))
+    assert not eps_cycles_write_nothing(r)
+    _expect(r, ["a"], [["b"] + ["c"] * k for k in range(10)], max_out=10)
+
+
+def check_union():
+    a, b = relation(_fst0(), 2, "ab"), relation(_fst1(), 2, "ab")
+    u = rel_union(a, b)
+    assert image_of(u, ("a",)) == {("b",)} and image_of(u, ("b",)) == {("c",)} and not image_of(u, ("a", "b"))
+    assert relation(ref_union(_fst0(), _fst1()), 2, "ab") == u
+
+
+def check_concatenate():
+    a, b = relation(_fst0(), 3, "ab"), relation(_fst1(), 3, "ab")
+    c = rel_concat(a, b, 3)
+    assert image_of(c, ("a", "b")) == {("b", "c")} and not image_of(c, ("a",)) and not image_of(c, ("b",))
+    cc = rel_concat(c, b, 3)
+    assert image_of(cc, ("a", "b", "b")) == {("b", "c", "c")} and not image_of(cc, ("a",))
+    assert relation(ref_concat(_fst0(), _fst1()), 3, "ab") == c
+
+
+def check_kleene_star():
+    s = rel_star(relation(_fst0(), 2, "a"), 2)
+    assert image_of(s, ("a",)) == {("b",)} and image_of(s, ("a", "a")) == {("b", "b")} and image_of(s, ()) == {()}
+    assert relation(ref_star(_fst0()), 2, "a") == s
+
+
+def check_epsilon_loops():
+    r = Ref(starts=["q0"], finals=["q1"], trans=[("q0", None, "q1", ()), ("q1", None, "q0", ())])
+    assert eps_cycles_write_nothing(r)
+    _expect(r, [], [[]])
+    r = Ref(starts=["q0"], finals=["q2"], trans=[("q0", None, "q1", ()), ("q1", "a", "q2", ("b",)),
+                                                   ("q1", None, "q0", ())])
+    _expect(r, ["a"], [["b"]])
+
+
+def check_paper():
+    r = Ref(starts=[0], finals=[3], trans=[(0, "I", 1, ("Je",)), (1, "am", 2, ("suis",)),
+                                            (2, "alone", 3, ("tout", "seul")), (2, "alone", 3, ("seul",))])
+    _expect(r, ["I", "am", "alone"], [["Je", "suis", "seul"], ["Je", "suis", "tout", "seul"]])
+
+
+def check_to_fst_identity():
+    # test_to_fst (without its epsilon transition): q0 -a-> qfinal -b-> qfinal, q0 -c-> qfinalbis
+    r = Ref(starts=["q0", "q0bis"], finals=["qfinal", "qfinalbis"],
+            trans=[("q0", "a", "qfinal", ("a",)), ("qfinal", "b", "qfinal", ("b",)), ("q0", "c", "qfinalbis", ("c",))])
+    _expect(r, ["a"], [["a"]])
+    _expect(r, ["a", "b", "b"], [["a", "b", "b"]])
+    _expect(r, ["b", "b"], [])
